@@ -106,6 +106,16 @@ func verifC14Literals() {
 	switch {
 	case i <= 10:
 		vAssert(err == nil && len(z.queries) == 0 && len(res.Address) >= 1, "literals and localhost resolve without queries")
+		wantPort := []uint16{443, 8443, 443, 443, 443, 80, 443, 8443, 443, 443, 8080}[i]
+		vAssert(res.Port == wantPort, "the literal's port is kept")
+		switch i {
+		case 0, 1, 9, 10:
+			vAssert(len(res.Address) == 1 && vBytesEq(res.Address[0], net.IP{192, 0, 2, 1}), "an IPv4 literal yields its 4-byte address")
+		case 2, 3, 6, 7, 8:
+			vAssert(len(res.Address) == 1 && len(res.Address[0]) == 16 && res.Address[0][0] == 0x20 && res.Address[0][15] == 1, "an IPv6 literal yields its address")
+		case 4, 5:
+			vAssert(len(res.Address) == 2 && vBytesEq(res.Address[0], net.IP{127, 0, 0, 1}) && len(res.Address[1]) == 16 && res.Address[1][15] == 1, "localhost yields both loopback addresses")
+		}
 	case i <= 12:
 		vAssert(errors.Is(err, ErrInvalidName) && len(z.queries) == 0, "over-long label or name refused with ErrInvalidName, no query")
 	default:
@@ -124,6 +134,7 @@ func verifC14Zone() {
 	rcodes := []uint8{1, 2, 3, 4, 5, 9}
 	rcErr := map[uint8]error{1: ErrFormatError, 2: ErrServerFailure, 3: ErrNonExistentDomain, 4: ErrNotImplemented, 5: ErrQueryRefused}
 	lastRC := uint8(0)           // response code of the last query (0: answered)
+	httpsFail := uint8(0)        // first response code other than NXDOMAIN served to an HTTPS lookup
 	served6 := map[string]net.IP{} // IPv6 address the zone served for a name
 	z := &vZone{}
 	aliasLoop := vBool()
@@ -137,6 +148,9 @@ func verifC14Zone() {
 		if vBool() {
 			m.RCode = rcodes[vInt(0, 5)]
 			lastRC = m.RCode
+			if q.typ == 65 && m.RCode != 3 && httpsFail == 0 {
+				httpsFail = m.RCode // only NXDOMAIN on the HTTPS lookup means "no record"
+			}
 			if q.typ != 65 {
 				refused[q.name] = true
 			}
@@ -242,6 +256,12 @@ func verifC14Zone() {
 	// error mapping: all failures here are response codes, and Resolve stops at the first
 	// one that matters, so it fails exactly when the last query it made was refused
 	vAssert((err != nil) == (lastRC != 0), "Resolve fails iff the last lookup it depended on was answered with an error code")
+	if httpsFail != 0 {
+		vAssert(err != nil, "a failure of the HTTPS lookup other than NXDOMAIN fails the resolution (no silent fall-back to plain addresses)")
+		if want, ok := rcErr[httpsFail]; ok && err != nil {
+			vAssert(errors.Is(err, want), "the HTTPS lookup's response code is the one reported")
+		}
+	}
 	if err != nil && lastRC != 0 {
 		if want, ok := rcErr[lastRC]; ok {
 			vAssert(errors.Is(err, want), "the response code is mapped to its documented error")
